@@ -19,6 +19,8 @@ type registration struct {
 	types []ast.Expr // one (unary) or two type id expressions
 	lit   *ast.FuncLit
 	owner string // enclosing constructor function (Equal, Less, Add, ...)
+	// bind: function valued fields/parameters of a registration helper, bound at the helper's call site in owner
+	bind map[types.Object]*ast.FuncLit
 }
 
 func (c *Ctx) registrations() []registration {
@@ -48,12 +50,87 @@ func (c *Ctx) registrations() []registration {
 				if fd := c.EnclosingDecl(call); fd != nil {
 					owner = fd.Name.Name
 				}
-				res = append(res, registration{pkg, call, call.Args[:len(call.Args)-1], lit, owner})
+				res = append(res, registration{pkg: pkg, call: call, types: call.Args[:len(call.Args)-1], lit: lit, owner: owner})
 				return true
 			})
 		}
 	}
-	return res
+	// registration helpers: a method of a struct with function valued fields (or a function with function valued
+	// parameters) that registers cells built around them; its registrations belong to every constructor that calls it
+	var extra []registration
+	for _, pkg := range c.RepoPkgs {
+		info := pkg.TypesInfo
+		for _, f := range pkg.Syntax {
+			ast.Inspect(f, func(x ast.Node) bool {
+				call, ok := x.(*ast.CallExpr)
+				if !ok {
+					return true
+				}
+				cal := Callee(info, call)
+				if cal == nil || cal.Pkg() != pkg.Types {
+					return true
+				}
+				hd := findFuncDecl(pkg, cal)
+				caller := c.EnclosingDecl(call)
+				if hd == nil || hd.Body == nil || caller == nil || hd == caller {
+					return true
+				}
+				var inner []registration
+				for _, r := range res {
+					if r.pkg == pkg && c.EnclosingDecl(r.call) == hd {
+						inner = append(inner, r)
+					}
+				}
+				if len(inner) == 0 {
+					return true
+				}
+				bind := map[types.Object]*ast.FuncLit{}
+				// fields of a composite literal receiver
+				if sel, ok := ast.Unparen(call.Fun).(*ast.SelectorExpr); ok {
+					if cl, ok := ast.Unparen(sel.X).(*ast.CompositeLit); ok {
+						if st, ok := info.TypeOf(cl).Underlying().(*types.Struct); ok {
+							for _, el := range cl.Elts {
+								if kv, ok := el.(*ast.KeyValueExpr); ok {
+									if k, ok := kv.Key.(*ast.Ident); ok {
+										if l, ok := ast.Unparen(kv.Value).(*ast.FuncLit); ok {
+											for i := 0; i < st.NumFields(); i++ {
+												if st.Field(i).Name() == k.Name {
+													bind[st.Field(i)] = l
+												}
+											}
+										}
+									}
+								}
+							}
+						}
+					}
+				}
+				// function literal arguments
+				i := 0
+				for _, fl := range hd.Type.Params.List {
+					for _, nm := range fl.Names {
+						if i < len(call.Args) {
+							if l, ok := ast.Unparen(call.Args[i]).(*ast.FuncLit); ok {
+								bind[info.Defs[nm]] = l
+							}
+						}
+						i++
+					}
+				}
+				if len(bind) == 0 {
+					return true
+				}
+				for _, r := range inner {
+					r2 := r
+					r2.owner = caller.Name.Name
+					r2.bind = bind
+					extra = append(extra, r2)
+				}
+				return true
+			})
+		}
+	}
+	return append(res, extra...)
 }
 
 // typeIdToGoType maps the type id variables to the Go types whose GetType returns them.
@@ -209,6 +286,65 @@ func ruleR141(c *Ctx) {
 				return true
 			})
 			pair := [2]string{nodeStr(c.Fset, r.types[0]), nodeStr(c.Fset, r.types[1])}
+			if cmp == nil && r.bind != nil {
+				// the cell hands its (converted) operands to a function bound at the helper's call site:
+				// n.floats(Float(a.(Int)), b.(Float)) with floats: func(a, b Float) Value { return Bool(a < b) }
+				var hand *ast.CallExpr
+				var inner *ast.FuncLit
+				ast.Inspect(r.lit.Body, func(x ast.Node) bool {
+					cc, ok := x.(*ast.CallExpr)
+					if !ok || hand != nil {
+						return true
+					}
+					var obj types.Object
+					switch f := ast.Unparen(cc.Fun).(type) {
+					case *ast.SelectorExpr:
+						if fs, ok := info.Selections[f]; ok {
+							obj = fs.Obj()
+						}
+					case *ast.Ident:
+						obj = info.ObjectOf(f)
+					}
+					if l, ok := r.bind[obj]; ok {
+						hand, inner = cc, l
+					}
+					return true
+				})
+				if hand != nil {
+					var ip []types.Object
+					for _, f := range inner.Type.Params.List {
+						for _, nm := range f.Names {
+							ip = append(ip, info.Defs[nm])
+						}
+					}
+					var icmp *ast.BinaryExpr
+					ast.Inspect(inner.Body, func(x ast.Node) bool {
+						if be, ok := x.(*ast.BinaryExpr); ok && icmp == nil {
+							switch be.Op {
+							case token.EQL, token.NEQ, token.LSS, token.GTR, token.LEQ, token.GEQ:
+								icmp = be
+							}
+						}
+						return true
+					})
+					if icmp != nil && len(ip) >= 2 && len(hand.Args) == len(ip) {
+						idx := func(e ast.Expr) int {
+							if id, ok := ast.Unparen(e).(*ast.Ident); ok {
+								for i, p := range ip {
+									if info.ObjectOf(id) == p {
+										return i
+									}
+								}
+							}
+							return -1
+						}
+						li, ri := idx(icmp.X), idx(icmp.Y)
+						if li >= 0 && ri >= 0 {
+							cmp = &ast.BinaryExpr{X: hand.Args[li], OpPos: icmp.OpPos, Op: icmp.Op, Y: hand.Args[ri]}
+						}
+					}
+				}
+			}
 			if cmp == nil {
 				undecided = fmt.Sprintf("the cell (%s,%s) contains no comparison (it delegates to a helper)", pair[0], pair[1])
 				continue
@@ -340,8 +476,50 @@ func ruleR142(c *Ctx) {
 		found[op] = true
 		key := fmt.Sprintf("value.New#derived-operator %q", op)
 		lit, ok := ast.Unparen(call.Args[2]).(*ast.FuncLit)
+		// roles and constants bound by a constructor of the implementation: lessOrEqual(less, equal, true)
+		localRole := map[types.Object]string{}
+		constBool := map[types.Object]bool{}
 		if !ok {
-			c.Undecided(key, call.Pos(), "implementation is not a function literal")
+			if hc, isCall := ast.Unparen(call.Args[2]).(*ast.CallExpr); isCall {
+				if cal := Callee(info, hc); cal != nil && cal.Pkg() == vp.Types {
+					if hd := findFuncDecl(vp, cal); hd != nil && hd.Body != nil {
+						var ret *ast.ReturnStmt
+						nRet := 0
+						inspectNoLit(hd.Body, func(y ast.Node) bool {
+							if r, ok := y.(*ast.ReturnStmt); ok && len(r.Results) == 1 {
+								ret = r
+								nRet++
+							}
+							return true
+						})
+						if nRet == 1 {
+							if l2, isLit := ast.Unparen(ret.Results[0]).(*ast.FuncLit); isLit {
+								lit, ok = l2, true
+								i := 0
+								for _, f := range hd.Type.Params.List {
+									for _, nm := range f.Names {
+										if i < len(hc.Args) {
+											arg := ast.Unparen(hc.Args[i])
+											if id, isID := arg.(*ast.Ident); isID {
+												if r := roleOf[info.ObjectOf(id)]; r != "" {
+													localRole[info.Defs[nm]] = r
+												}
+											}
+											if tv := info.Types[arg]; tv.Value != nil && tv.Value.Kind() == constant.Bool {
+												constBool[info.Defs[nm]] = constant.BoolVal(tv.Value)
+											}
+										}
+										i++
+									}
+								}
+							}
+						}
+					}
+				}
+			}
+		}
+		if !ok {
+			c.Undecided(key, call.Pos(), "implementation is neither a function literal nor the result of a constructor that returns one")
 			return true
 		}
 		var params []types.Object
@@ -351,38 +529,93 @@ func ruleR142(c *Ctx) {
 			}
 		}
 		pa, pb := params[len(params)-2], params[len(params)-1]
+		// operand aliases: x, y := a, b; if swap { x, y = b, a }  (swap a constant of the constructor call)
+		alias := map[types.Object]string{pa: "a", pb: "b"}
+		resolve := func(e ast.Expr) string {
+			if id, ok := ast.Unparen(e).(*ast.Ident); ok {
+				return alias[info.ObjectOf(id)]
+			}
+			return ""
+		}
 		var calls []callInfo
-		ast.Inspect(lit.Body, func(y ast.Node) bool {
-			cc, ok := y.(*ast.CallExpr)
-			if !ok {
+		collect := func(n ast.Node) {
+			ast.Inspect(n, func(y ast.Node) bool {
+				cc, ok := y.(*ast.CallExpr)
+				if !ok {
+					return true
+				}
+				s2, ok := ast.Unparen(cc.Fun).(*ast.SelectorExpr)
+				if !ok || s2.Sel.Name != "Calc" || len(cc.Args) != 3 {
+					return true
+				}
+				id, ok := ast.Unparen(s2.X).(*ast.Ident)
+				if !ok {
+					return true
+				}
+				role := roleOf[info.ObjectOf(id)]
+				if role == "" {
+					role = localRole[info.ObjectOf(id)]
+				}
+				if role == "" {
+					role = "other(" + id.Name + ")"
+				}
+				order := "?"
+				if o := resolve(cc.Args[1]) + resolve(cc.Args[2]); o == "ab" || o == "ba" {
+					order = o
+				}
+				calls = append(calls, callInfo{role, order, cc})
 				return true
+			})
+		}
+		assign := func(as *ast.AssignStmt) {
+			if len(as.Lhs) != len(as.Rhs) {
+				return
 			}
-			s2, ok := ast.Unparen(cc.Fun).(*ast.SelectorExpr)
-			if !ok || s2.Sel.Name != "Calc" || len(cc.Args) != 3 {
-				return true
+			vals := make([]string, len(as.Rhs))
+			for i, r := range as.Rhs {
+				vals[i] = resolve(r)
 			}
-			id, ok := ast.Unparen(s2.X).(*ast.Ident)
-			if !ok {
-				return true
-			}
-			role := roleOf[info.ObjectOf(id)]
-			if role == "" {
-				role = "other(" + id.Name + ")"
-			}
-			x1, ok1 := ast.Unparen(cc.Args[1]).(*ast.Ident)
-			x2, ok2 := ast.Unparen(cc.Args[2]).(*ast.Ident)
-			order := "?"
-			if ok1 && ok2 {
-				switch {
-				case info.ObjectOf(x1) == pa && info.ObjectOf(x2) == pb:
-					order = "ab"
-				case info.ObjectOf(x1) == pb && info.ObjectOf(x2) == pa:
-					order = "ba"
+			for i, l := range as.Lhs {
+				if id, ok := ast.Unparen(l).(*ast.Ident); ok && id.Name != "_" {
+					if vals[i] != "" {
+						alias[info.ObjectOf(id)] = vals[i]
+					} else if _, had := alias[info.ObjectOf(id)]; had && info.ObjectOf(id) != pa && info.ObjectOf(id) != pb {
+						delete(alias, info.ObjectOf(id))
+					}
 				}
 			}
-			calls = append(calls, callInfo{role, order, cc})
-			return true
-		})
+		}
+		var walk func(stmts []ast.Stmt)
+		walk = func(stmts []ast.Stmt) {
+			for _, st := range stmts {
+				switch t := st.(type) {
+				case *ast.AssignStmt:
+					collect(t)
+					assign(t)
+				case *ast.IfStmt:
+					// a condition that is a constant of the constructor call selects one branch
+					cond := ast.Unparen(t.Cond)
+					neg := false
+					if u, ok := cond.(*ast.UnaryExpr); ok && u.Op == token.NOT {
+						neg, cond = true, ast.Unparen(u.X)
+					}
+					if id, ok := cond.(*ast.Ident); ok && t.Init == nil {
+						if v, known := constBool[info.ObjectOf(id)]; known {
+							if v != neg {
+								walk(t.Body.List)
+							} else if eb, ok := t.Else.(*ast.BlockStmt); ok {
+								walk(eb.List)
+							}
+							continue
+						}
+					}
+					collect(t)
+				default:
+					collect(st)
+				}
+			}
+		}
+		walk(lit.Body.List)
 		var got []string
 		for _, ci := range calls {
 			got = append(got, ci.role+":"+ci.order)
